@@ -119,6 +119,15 @@ Theorem C23_audit_sites_ok : forallb site_ok audit_sites = true.
 Proof. vm_compute. reflexivity. Qed.
 Print Assumptions C23_audit_sites_ok.
 
+(* regenerated fact (tools/props/c23_audit.py class_state): no class of recompiler.py / cffi_opcode.py / model.py /
+   cparser.py / api.py binds a mutable container in its class body (constant ALL_CAPS tables that nothing mutates
+   excepted) — the mutable state of Parser, FFI, Recompiler and the model types is created per instance, so one
+   FFI's cdef()/include() cannot change what another FFI object generates.  A class-level `x = set()` / `{}` / `[]`
+   breaks THIS obligation (and the several-FFIs-in-one-process stream of the check shows the differing text). *)
+Theorem C23_state_is_per_instance : class_level_mutable_state = [].
+Proof. reflexivity. Qed.
+Print Assumptions C23_state_is_per_instance.
+
 Theorem C23_fold_order_independent : forall (S A : Type) (f : S -> A -> S),
   (forall st x y, f (f st x) y = f (f st y) x) ->
   forall l l', Permutation l l' -> forall st, fold_left f l st = fold_left f l' st.
